@@ -171,7 +171,12 @@ type World struct {
 	sweepCount    int
 	sweepTeardown []int             // request indexes (sweep numbering) issued by passes of an owner that is being torn down
 	Taint         map[string]string // object key -> cause tag set by a monitor (e.g. stale takeover)
-	extra         map[string]any
+	// Denied: "cluster|key" of objects that admission currently refuses to let the operator create or
+	// change (a policy that came into force, a permission that was withdrawn); set by user operations
+	Denied map[string]bool
+	// DenyFlips: history sequence numbers at which Denied changed
+	DenyFlips []uint64
+	extra  map[string]any
 }
 
 const (
